@@ -44,7 +44,8 @@ Proof.
 Qed.
 
 (* The suspension points of the actor code, function by function, in source order, as the
-   scanner reads them (`x` = `x(..).await`, `select!`, `async{ .. }` = an async block).  This
+   scanner reads them (`x` = `x(..).await`; `select!(a,b)` = a select! racing the futures a and b, which it
+   drops when they lose; `async{ .. }` = an async block).  This
    is the list the concurrent models were written from; each line says which model step
    it is.  A new, moved or removed suspension point in these files changes what can
    interleave and what a dropped future can lose, so the models have to be looked at
@@ -65,22 +66,22 @@ Definition modelled_suspension_points : list (string * list string) :=
     ("api/subscriber:SubscriberService::acknowledge", ["acknowledge_messages"]);
     (* unary Pull: a select! over the pull loop (pull, else wait for the availability signal),
        the 300 s limit and the deleted signal (ConcSub: the unary consumer's steps, timeout, del_exit) *)
-    ("api/subscriber:SubscriberService::pull", ["async{"; "pull_messages"; "signal"; "}"; "async{"; "tokio::time::sleep"; "}"; "async{"; "deleted"; "}"; "select!"]);
+    ("api/subscriber:SubscriberService::pull", ["async{"; "pull_messages"; "signal"; "}"; "async{"; "tokio::time::sleep"; "}"; "async{"; "deleted"; "}"; "select!(messages_fut,timeout_fut,deleted_fut)"]);
     (* StreamingPull: first request, then the try_stream! loop: pull, else a select! over control
        messages, availability signal and deleted signal (ConcSub's stream consumer) *)
-    ("api/subscriber:SubscriberService::streaming_pull", ["next"; "try_stream!{"; "pull_messages"; "select!"; "}"; "next"; "handle_streaming_pull_request"]);
+    ("api/subscriber:SubscriberService::streaming_pull", ["next"; "try_stream!{"; "pull_messages"; "select!(signal,deleted)"; "}"; "next"; "handle_streaming_pull_request"]);
     ("api/subscriber:pull_messages", ["pull_messages"]);
     ("api/subscriber:handle_streaming_pull_request", ["acknowledge_messages"; "modify_ack_deadlines"]);
     (* push loop: sleep, then per push subscription pull and dispatch with a per-message timeout *)
     ("push/push_loop:PushLoop::run", ["run"]);
     ("push/push_loop:run", ["tokio::time::sleep"]);
-    ("push/push_loop:pull_and_dispatch_messages", ["async{"; "pull_messages"; "select!"; "join_next"; "}"; "select!"]);
+    ("push/push_loop:pull_and_dispatch_messages", ["async{"; "pull_messages"; "select!(dispatch_fut,sleep)"; "join_next"; "}"; "select!(deleted_signal,fut)"]);
     ("push/push_loop:verif_pull_and_dispatch", ["pull_and_dispatch_messages"]);
     ("push/push_loop:dispatch_message", ["send"; "modify_ack_deadlines"; "acknowledge_messages"]);
     (* the expiry branch of the actor's select!: it only WAITS (sleep, or a change of the earliest
        deadline); taking the expired messages and returning them happens in one poll, so a dropped
        expiry future loses nothing (ConcSub: LExpire is one step) *)
-    ("subscriptions/outstanding:OutstandingMessageTracker::poll_next_expired", ["select!"; "notified"]);
+    ("subscriptions/outstanding:OutstandingMessageTracker::poll_next_expired", ["select!(notified,sleep_until)"; "notified"]);
     (* client side of every subscription request: wait for room in the mailbox, then for the answer
        (ConcSub: a consumer owing its pull; ConcActors: a client's send / wait) *)
     ("subscriptions/subscription:Subscription::get_info", ["send"; "recv"]);
@@ -90,12 +91,13 @@ Definition modelled_suspension_points : list (string * list string) :=
     ("subscriptions/subscription:Subscription::modify_ack_deadlines", ["send"; "recv"]);
     ("subscriptions/subscription:Subscription::get_stats", ["send"; "recv"]);
     ("subscriptions/subscription:Subscription::delete", ["send"; "recv"]);
-    (* the actor task: one select! over mailbox and expiry, inside one over the deleted signal *)
-    ("subscriptions/subscription_actor:SubscriptionActor::start", ["async{"; "async{"; "select!{"; "receive"; "}"; "}"; "select!"; "}"]);
+    (* the actor task: one select! over mailbox and expiry, inside one over the deleted signal; when it ends the
+       mailbox is closed and drained (fix f7f8d33: a request caught by the shutdown is dropped, not stranded) *)
+    ("subscriptions/subscription_actor:SubscriptionActor::start", ["async{"; "async{"; "select!(recv,poll_next_expired){"; "receive"; "}"; "}"; "select!(deleted,poll)"; "recv"; "}"]);
     (* Delete is the only request whose handling suspends (ConcActors: the actor inside a request) *)
     ("subscriptions/subscription_actor:SubscriptionActor::receive", ["delete"]);
     (* ... it waits for the topic while draining its own mailbox (ConcActors: drain = true, fix 0b18551) *)
-    ("subscriptions/subscription_actor:SubscriptionActor::delete", ["select!"]);
+    ("subscriptions/subscription_actor:SubscriptionActor::delete", ["select!(remove,recv)"]);
     (* CreateSubscription: store, then attach in a task of its own and wait for it (fix c76a5b8;
        ConcActors: the attach task survives its caller) *)
     ("subscriptions/subscription_manager:SubscriptionManager::create_subscription", ["async{"; "attach_subscription"; "}"; "attach"]);
